@@ -70,10 +70,13 @@ func (v ViewBox) AspectSlice(dx, dy float32, ax, ay float32) (MinX, MinY, MaxX, 
 	} else {
 		vdy = vdx / vbAR
 	}
+	// The far edges are measured from the target's far edges: minX + vdx would
+	// lose the target's extent to rounding when the overflow is much larger
+	// than the target, leaving the target uncovered.
 	minX := (dx - vdx) * ax
-	maxX := minX + vdx
+	maxX := dx - (dx-vdx)*(1-ax)
 	minY := (dy - vdy) * ay
-	maxY := minY + vdy
+	maxY := dy - (dy-vdy)*(1-ay)
 	return minX, minY, maxX, maxY
 }
 
